@@ -349,6 +349,15 @@ class Server:
                     if not self._pipeline_notfull.wait(
                         max(0, wait_deadline - perf_counter())
                     ):
+                        if len(pipeline) < self._capacity:
+                            # A slot was freed just as the wait expired.
+                            break
+                        # A notification issued just after this wait had expired
+                        # is consumed by this (leaving) waiter nonetheless. Pass it on,
+                        # otherwise another waiter could sleep until its own deadline
+                        # next to a free slot. (A needless wake-up is harmless: the
+                        # waiter re-checks and goes back to waiting.)
+                        self._pipeline_notfull.notify()
                         raise ServerBacklogFull(len(pipeline), perf_counter() - t0)
 
             # Record the request in the ledger before it enters the pipeline:
